@@ -131,10 +131,34 @@ def sc_extreme(B, chunks=None):
     return o
 
 
+def sc_highdim(B, D, scale):
+    """many features whose variances are all tiny / huge: each variance is far from the floor and
+    from the float range, their product is not (real backend only)"""
+    import numpy as np
+    from symexec.engine import Outcome
+
+    gmm = B.mod("gmm")
+    rs = np.random.RandomState(D)
+    v = np.vstack([scale * (1.0 + rs.rand(D)), (1.0 / scale) * (1.0 + rs.rand(D))])
+    mu = rs.normal(size=(2, D))
+    m = gmm.GMMMachine(2)
+    m.weights, m.means, m.variance_thresholds, m.variances = np.array([0.4, 0.6]), mu, min(scale, 1.0 / scale) * 1e-3, v
+    X = np.vstack([mu[0] + np.sqrt(v[0]) * rs.normal(size=D), mu[1] + np.sqrt(v[1]) * rs.normal(size=D), mu[0] + 0.5 * np.sqrt(v[0])])
+    P = dict(C=2, D=D, w=[0.4, 0.6], mu=mu.tolist(), v=v.tolist())
+    o = Outcome()
+    ll = m.log_likelihood(X)
+    o.fin("highdim-finite", ll)
+    o.equal("highdim-value", ll, [o_ll(B, P, X[i]) for i in range(3)])
+    st = m.acc_stats(X)
+    o.equal("highdim-resp-sum", float(np.sum(st.n)), 3.0)
+    return o
+
+
 def job_boundary(P):
     """witness search beyond the symbolic bound: batch sizes around the integer constants of the
     source; extreme parameter scales (float cancellation) for NumPy and Dask input"""
     P.probe_real("extreme-scales", sc_extreme, [dict(chunks=None), dict(chunks=(3,)), dict(chunks=(1, 2))], tries=1)
+    P.probe_real("high-dimensional-scales", sc_highdim, [dict(D=D, scale=sc) for D in (24, 60) for sc in (1e-7, 1e-13, 1e7, 1e13)], tries=1)
     from symexec import loader
 
     sizes = sorted({n for c in loader.int_constants() for n in (c - 1, c, c + 1, 2 * c + 1) if 8 <= n <= 5000})
